@@ -191,6 +191,14 @@ def graph_search(run, rnd, dates, n_pops):
         rules = popgen.env(date)[1]
         for k in range(n_pops):
             df, kinds = popgen.population(rnd, date)
+            # "no person" is any negative pointer: survey data use several codes (-1 not applicable, -2 unknown, …) in the
+            # pointer columns that are not foreign keys into the household (recipient of child benefit, payer of child care)
+            if k % 2 == 1:
+                df = df.copy()
+                for c in ("p_id_kindergeld_empf", "p_id_erziehgeld_empf", "p_id_betreuungsk_träger"):
+                    if c in df.columns:
+                        # … also for some rows that have a recipient (recipient unknown / outside the sample)
+                        df[c] = [rnd.choice([-2, -3, -7, v]) if (v < 0 or rnd.random() < 0.3) else v for v in df[c]]
             res = popgen.simulate_all(df, date)
             cols = {c: res[c].to_numpy() for c in res.columns}
             for n in dag.nodes:
